@@ -227,6 +227,9 @@ def build_source(c, d):
     return sgy, data, cells, present
 
 
+_HIST = {}
+
+
 def convert_and_export(c, sgy, d):
     sgz = os.path.join(d, f"z{c['k']}.sgz")
     bs = tuple(c['bs']) if c['bs'] is not None else None      # a replayed case comes back from JSON with a list
@@ -250,7 +253,9 @@ def convert_and_export(c, sgy, d):
         with SgzConverter(sgz) as conv:
             # what the same object served before must not matter (D46/D47): a tracefield grid (leaves the header memo in
             # the padded mode on irregular files), a regenerated header, or an earlier export of the same file
-            hist = c['dseed'] % 5
+            # the history is dealt round-robin PER KIND of file, starting with "every grid" (4), so that irregular, 2D and regular
+            # files each meet every history within the first five cases of their kind
+            hist = _HIST[c['kind']] = (_HIST.get(c['kind'], 3) + 1) % 5
             if hist == 1 and conv.stored_header_keys:
                 conv.get_tracefield_values(conv.stored_header_keys[-1])
             elif hist == 4:
